@@ -343,6 +343,38 @@ def judge_fault(fmt: str, pt: bool, site: str, excname: str, res: Dict[str, Any]
 
 # ---------------------------------------------------------------- jobs
 
+def field_tags() -> List[str]:
+    """every field tag epydoc2stan has a handler for (enumerated from the code, so a new handler is covered), plus tags handled elsewhere and an unknown one"""
+    import inspect
+    from pydoctor.epydoc2stan import FieldHandler
+    tags = sorted(n[len('handle_'):] for n, _ in inspect.getmembers(FieldHandler) if n.startswith('handle_'))
+    return tags + ['newfield x, X', 'group g', 'sort', 'deprecated', 'version', 'todo', 'nosuchtag', 'vartype', 'kwarg', 'kwparam', 'parameter']
+
+
+def field_pair_docs(fmt: str, t1: str) -> Iterable[str]:
+    """a sound summary followed by field t1 and every second field (the same tag included), each written without and with an argument"""
+    mark = '@' if fmt in ('epytext', 'plaintext') else ':'
+    end = ':'
+
+    def forms(t: str) -> List[str]:
+        if ' ' in t:
+            return [f'{mark}{t}{end} w']
+        return [f'{mark}{t}{end} w', f'{mark}{t} a{end} w']
+    for f1 in forms(t1):
+        yield f'Sound summary w.\n\n{f1}\n'
+        for t2 in field_tags():
+            for f2 in forms(t2):
+                yield f'Sound summary w.\n\n{f1}\n{f2}\n'
+
+
+NAP_SECTIONS = {'google': ['Args:\n    a: w', 'Args:\n    a (int): w', 'Returns:\n    w', 'Returns:\n    int: w', 'Yields:\n    w', 'Yields:\n    int: w', 'Raises:\n    ValueError: w', 'Attributes:\n    v: w',
+                           'Attributes:\n    v (int): w', 'Keyword Args:\n    k (int): w', 'Note:\n    w', 'See Also:\n    f: w', 'Warns:\n    UserWarning: w', 'Example:\n    >>> w', 'Todo:\n    w', 'Methods:\n    m: w',
+                           'Other Parameters:\n    o: w', 'Receives:\n    r: w', 'References:\n    w'],
+                'numpy': ['Parameters\n----------\na\n    w', 'Parameters\n----------\na : int\n    w', 'Returns\n-------\nint\n    w', 'Returns\n-------\nw', 'Yields\n------\nint\n    w', 'Yields\n------\nw',
+                          'Raises\n------\nValueError\n    w', 'Attributes\n----------\nv : int\n    w', 'Other Parameters\n----------------\nk : int\n    w', 'Notes\n-----\nw', 'See Also\n--------\nf : w',
+                          'Warns\n-----\nUserWarning\n    w', 'Examples\n--------\n>>> w', 'Methods\n-------\nm\n    w', 'Receives\n--------\nr : int\n    w', 'References\n----------\nw']}
+
+
 def token_strings(alphabet: Sequence[str], n: int, first: Optional[str] = None) -> Iterable[str]:
     for L in range(1, n + 1):
         for toks in itertools.product(alphabet, repeat=L):
@@ -358,6 +390,12 @@ def jobs(tier: str) -> Iterable[Tuple[str, Any]]:
             yield ('faults', ('fault', fmt, pt))
     for fmt in FMTS:
         yield ('owner-field-composites', ('composite', fmt))
+    # every ordered pair of field tags (a tag with itself included), on a function and on a class
+    for fmt in ('epytext', 'restructuredtext'):
+        for t1 in field_tags():
+            yield ('field-tag-pairs', ('fieldpairs', fmt, t1))
+    for fmt in ('google', 'numpy'):
+        yield ('section-pairs', ('sectionpairs', fmt))
     for fmt in FMTS:
         for kind in KINDS:
             for pt in ((False, True) if kind in ('function', 'class') else (False,)):       # type fields live in function and class docstrings
@@ -398,6 +436,25 @@ def run_job(job: Any, tier: str) -> Dict[str, Any]:
             for tok in T:
                 for order in ('body-first', 'summary-first'):
                     judge_doc(s, fmt, False, kind, f'Sound summary w.\n\n{tag} {tok} w', control, res, order)
+        return res
+    if job[0] == 'fieldpairs':
+        _, fmt, t1 = job
+        s = mk(fmt, False)
+        control = control_of(s)
+        for doc in field_pair_docs(fmt, t1):
+            res['nontrivial'].add(core.h('field-pair', fmt, doc))       # two fields meet in one field handler: that is the point of the case
+            for kind in ('function', 'class'):
+                judge_doc(s, fmt, False, kind, doc, control, res)
+        return res
+    if job[0] == 'sectionpairs':
+        fmt = job[1]
+        s = mk(fmt, False)
+        control = control_of(s)
+        for s1 in NAP_SECTIONS[fmt]:
+            for s2 in NAP_SECTIONS[fmt]:
+                res['nontrivial'].add(core.h('section-pair', fmt, s1, s2))
+                for kind in ('function', 'class'):
+                    judge_doc(s, fmt, False, kind, f'Sound summary w.\n\n{s1}\n\n{s2}\n', control, res)
         return res
     if job[0] == 'tok':
         _, fmt, pt, kind, n, first, alpha = job[:7]
